@@ -98,7 +98,7 @@ theorem copies_are_whole_batches (cfg : Cfg) (s s' : State) (pw : Nat) (tp : TP)
   repeat' split at hs
   all_goals (first | (cases hs; done) | skip)
   rename_i _ P hP _ b k hsend _ B hB hg
-  obtain ⟨-, -, -, hm⟩ := hg
+  obtain ⟨-, -, -, hm, -⟩ := hg
   cases hs
   refine ⟨b, B, hB, hm, ?_, ?_, ?_⟩
   · rw [produced_log]; cases h : out.applied <;> simp
